@@ -170,7 +170,9 @@ def C14(ctx):
 
 
 def C16(ctx):
-    std_check(ctx, [dict(harness="c16", aliases=["c16_diff"], cases=(700, 2800), max_ops=6)])
+    # one job per XML backend (the diff exporters/importers differ): libxml2 and the built-in one
+    std_check_parallel(ctx, [dict(harness="c16", aliases=["c16_diff"], tag="c16-libxml", cases=(700, 2800), workers=(8, 8), max_ops=6, env={"HWLOC_LIBXML_EXPORT": "1", "HWLOC_LIBXML_IMPORT": "1"}),
+                             dict(harness="c16", aliases=["c16_diff"], tag="c16-nolibxml", cases=(700, 2800), workers=(8, 8), max_ops=6, env={"HWLOC_LIBXML_EXPORT": "0", "HWLOC_LIBXML_IMPORT": "0"})])
 
 
 def C05(ctx):
